@@ -1,7 +1,7 @@
 (* C06 — every step of a clean history keeps the invariant; the theorems over arbitrary histories. *)
 From Coq Require Import ZArith List String Bool Arith Lia.
 Import ListNotations.
-From TD Require Import Model.C06_Cache Proofs.C06_PathP Proofs.C06_ViewP Proofs.C06_KeyP Proofs.C06_CacheP Proofs.C06_ReadP.
+From TD Require Import Model.C06_Cache Proofs.C06_PathP Proofs.C06_ViewP Proofs.C06_KeyP Proofs.C06_CacheP Proofs.C06_EraseP Proofs.C06_ReadP.
 Open Scope string_scope.
 Open Scope list_scope.
 
@@ -184,7 +184,10 @@ Proof.
   - now apply unlock_good.
   - destruct (read_spec U hk s p m args kwargs HU G C) as [G' _].
     destruct (read hk s p m args kwargs) as [s' [x|]]; exact G'.
-  - destruct (find_leaf s p) as [l|]; [|exact G]. destruct (l_kind l); cbn; try exact G; now apply inplace_good.
+  - destruct (find_leaf s p) as [l|]; [|exact G]. destruct (l_kind l); cbn [fst]; try exact G; try (now apply inplace_good).
+    destruct (fix_rebind fx); cbn [andb]; [|now apply inplace_good].
+    unfold locked_at. destruct (find_node s (parent_of p)) as [o|] eqn:F; [|now apply inplace_good].
+    destruct (flag_locked o) eqn:L; [|now apply inplace_good]. eapply erase_after_store_good; eauto.
   - destruct p as [|x p]; [exact G|]. destruct (owner_locked s (x :: p)) as [[|]|] eqn:O; try exact G.
     destruct (owner_unlocked U s _ G O) as [o [F L]]. cbn [fst]. eapply set_good; eauto. discriminate.
   - destruct p as [|x p]; [exact G|]. destruct (owner_locked s (x :: p)) as [[|]|] eqn:O; try exact G.
@@ -226,23 +229,36 @@ Qed.
 Lemma run_cons : forall fx hk s o ops, run fx hk s (o :: ops) = run fx hk (fst (step fx hk s o)) ops.
 Proof. reflexivity. Qed.
 
+Lemma inplace_step_shape : forall fx hk s q z, exists f,
+  (forall n, n_path (f n) = n_path n /\ info (f n) = info n)
+  /\ nodes (fst (step fx hk s (OInplace q z))) = map f (nodes s) /\ leaves (fst (step fx hk s (OInplace q z))) = leaves s.
+Proof.
+  intros fx hk s q z. cbn [step].
+  assert (Id : exists f : node -> node, (forall n, n_path (f n) = n_path n /\ info (f n) = info n) /\ nodes s = map f (nodes s) /\ leaves s = leaves s).
+  { exists (fun x => x). split; [intros; split; reflexivity|split; [now rewrite map_id|reflexivity]]. }
+  destruct (find_leaf s q) as [l|]; [|exact Id]. destruct (l_kind l); cbn [fst]; try exact Id.
+  destruct (fix_rebind fx && locked_at s (parent_of q)); [|exact Id].
+  eexists. split; [|split; [reflexivity|reflexivity]].
+  intros n. cbn beta. destruct (_ || _); split; reflexivity.
+Qed.
+
 Theorem held_result_tracks_inplace : forall U hk writes s p n m a k,
-  Good U s -> find_node s p = Some n ->
+  objs_consistent U -> Good U s -> find_node s p = Some n ->
   exists n', find_node (run repo hk s (map (fun pv => OInplace (fst pv) (snd pv)) writes)) p = Some n'
              /\ fresh (run repo hk s (map (fun pv => OInplace (fst pv) (snd pv)) writes)) n' m a k = fresh s n m a k.
 Proof.
-  intros U hk writes. induction writes as [|[q z] ws IH]; intros s p n m a k G F.
+  intros U hk writes. induction writes as [|[q z] ws IH]; intros s p n m a k HU G F.
   - exists n. split; [assumption|reflexivity].
   - cbn [map fst snd]. rewrite run_cons.
     set (s1 := fst (step repo hk s (OInplace q z))).
-    assert (E : nodes s1 = nodes s /\ leaves s1 = leaves s).
-    { unfold s1. cbn. destruct (find_leaf s q) as [l|]; [|auto]. destruct (l_kind l); cbn; auto. }
-    destruct E as [En El].
-    assert (G1 : Good U s1).
-    { unfold s1. cbn. destruct (find_leaf s q) as [l|]; [|exact G]. destruct (l_kind l); cbn; try exact G; now apply inplace_good. }
-    assert (F1 : find_node s1 p = Some n) by (unfold find_node; now rewrite En).
-    destruct (IH s1 p n m a k G1 F1) as [n' [Fn' Ef]]. exists n'. split; [exact Fn'|].
-    rewrite Ef. unfold fresh. f_equal. apply view_eq; [unfold skel; now rewrite En|assumption|left; eapply good_all_td; eauto].
+    destruct (inplace_step_shape repo hk s q z) as [f [Kf [En El]]]. fold s1 in En, El.
+    assert (G1 : Good U s1) by (apply step_good_any; auto; exact I).
+    assert (F1 : find_node s1 p = Some (f n)).
+    { unfold find_node. rewrite En. rewrite find_map; [|intros; apply Kf]. unfold find_node in F. now rewrite F. }
+    destruct (IH s1 p (f n) m a k HU G1 F1) as [n' [Fn' Ef]]. exists n'. split; [exact Fn'|].
+    rewrite Ef. unfold fresh. rewrite (proj1 (Kf n)). f_equal.
+    apply view_eq; [|assumption|left; eapply good_all_td; eauto].
+    unfold skel. rewrite En, map_map. apply map_ext. intros x. destruct (Kf x) as [A B]. now rewrite A, B.
 Qed.
 
 (* ---------------------------------------------------------------- unlock erases *)
@@ -283,10 +299,10 @@ Qed.
 (* ---------------------------------------------------------------- the decorator's two side conditions *)
 Theorem not_consulted_when_unlocked : forall s p n m a k v,
   find_node s p = Some n -> node_locked s n = false -> decorate s p m a k v = (s, Some (Bypass, v)).
-Proof. intros s p n m a k v F L. unfold decorate. now rewrite F, L. Qed.
+Proof. intros s p n m a k v F L. unfold decorate, cache_active. now rewrite F, L. Qed.
 
 Theorem tensor_never_stored : forall s p m a k, fst (decorate s p m a k VTensor) = s.
 Proof.
   intros s p m a k. unfold decorate. destruct (find_node s p) as [n|]; [|reflexivity].
-  destruct (node_locked s n); [|reflexivity]. cbn. destruct (cache_lookup (n_cache n) m (make_cache_key a k)); reflexivity.
+  destruct (cache_active s n); [|reflexivity]. cbn. destruct (cache_lookup (n_cache n) m (make_cache_key a k)); reflexivity.
 Qed.
